@@ -17,6 +17,7 @@ func init() {
 }
 
 func runC51(c *Ctx) {
+	c51SingleIssuance(c)
 	const pk = "acme/autocert"
 	// ---- (a) host policy precedes certificate lookup/issuance
 	if f := c.fn(pk, "(*Manager).GetCertificate"); f != nil {
